@@ -42,6 +42,19 @@ def excJ4 {α : Type} (f : α → Json) : Except Exc4 α → Json
       | .runtime => "runtime" | .value => "value" | .index => "index" | .key => "key" | .type => "type" | .zeroDiv => "zeroDiv"))]
 -- --- end T4
 
+-- --- T7 helpers: dicts with int keys and small str values, dicts keyed by `frozenset(d.items())`
+def t7ent (j : Json) : Except String (Int × String) := do
+  match (← arrOfJson j) with
+  | [k, v] => pure (← intOfJson k, ← strOfJson v)
+  | _ => throw "expected [key, value]"
+def t7dictJ (d : Dict Int String) : Json := Json.arr (d.map (fun p => Json.arr #[intJ p.1, Json.str p.2])).toArray
+def t7ins (p : Int × String) : List (Int × String) → List (Int × String)
+  | [] => [p]
+  | q :: qs => if p.1 ≤ q.1 then p :: q :: qs else q :: t7ins p qs
+/-- a `frozenset(d.items())` key printed with its items sorted by the (distinct) dict keys -/
+def t7frozenJ (k : FrozenItems Int String) : Json := t7dictJ (k.foldr t7ins [])
+-- --- end T7
+
 def handle (op : String) (j : Json) : Except String Json := do
   match op with
   | "bin" => pure (strJ (bin (← intOfJson (← field j "n"))))
@@ -180,6 +193,38 @@ def handle (op : String) (j : Json) : Except String Json := do
                       ("remove", excJ4 intsToJson (listRemoveE xs v)), ("abs", intJ (absInt i))])
   | "t14_abs" => pure (ratToJson (absNum (← ratOfJson (← field j "a"))))
   -- --- end T14
+  -- --- T7: `k in d`, `d.get(k)`, `del d[k]`, `frozenset(d.items())` equality and dicts keyed by such frozensets, `set(xs)`, set
+  -- equality, `max` (see the T7 block of OQ/Exec/Py.lean; `ofOption` is a plain case distinction and is not compared)
+  | "t7_dict" =>
+    let d ← listOfJson t7ent (← field j "d"); let k ← intOfJson (← field j "k")
+    pure (Json.mkObj [("has", Json.bool (dictHas d k)), ("find", optJ Json.str (dictFind? d k)),
+                      ("del", excJ4 t7dictJ (dictDelE d k))])
+  | "t7_frozen" =>
+    let d ← listOfJson t7ent (← field j "d"); let e ← listOfJson t7ent (← field j "e")
+    pure (Json.bool (frozenItemsEq (d : FrozenItems Int String) e))
+  | "t7_fdict" =>
+    -- ops: [[kind, dict, value]…] on a dict D keyed by frozenset(dict.items()): "set" is D[key] = v, "acc" is
+    -- `if key in D: D[key] = D[key] + v  else: D[key] = v`; probes: dicts whose frozenset is looked up with `in` and `D[key]`
+    let ops ← listOfJson (fun o => do
+      match (← arrOfJson o) with
+      | [kind, k, v] => pure (← strOfJson kind, ← listOfJson t7ent k, ← intOfJson v)
+      | _ => throw "bad op") (← field j "ops")
+    let probes ← listOfJson (listOfJson t7ent) (← field j "probes")
+    let r : Except Exc4 (Dict (FrozenItems Int String) Int) := foldlE (fun (D : Dict (FrozenItems Int String) Int) o =>
+      if o.1 == "acc" && dictHasBy frozenItemsEq D o.2.1 then
+        (dictGetByE frozenItemsEq D o.2.1).bind (fun old => .ok (dictSetBy frozenItemsEq D o.2.1 (old + o.2.2)))
+      else .ok (dictSetBy frozenItemsEq D o.2.1 o.2.2)) [] ops
+    pure (excJ4 (fun D => Json.mkObj [
+        ("items", Json.arr (D.map (fun p => Json.arr #[t7frozenJ p.1, intJ p.2])).toArray),
+        ("has", Json.arr (probes.map (fun k => Json.bool (dictHasBy frozenItemsEq D k))).toArray),
+        ("gets", Json.arr (probes.map (fun k => excJ4 intJ (dictGetByE frozenItemsEq D k))).toArray)]) r)
+  | "t7_set" =>
+    let xs ← listOfJson natOfJson (← field j "xs"); let ys ← listOfJson natOfJson (← field j "ys")
+    let natsJ (l : List Nat) : Json := Json.arr (l.map (fun (n : Nat) => intJ n)).toArray
+    pure (Json.mkObj [("set", natsJ (setOfList xs)), ("eq", Json.bool (setEq (setOfList xs) (setOfList ys))),
+                      ("max", excJ4 (fun (n : Nat) => intJ n) (maxNatE xs)),
+                      ("maxset", excJ4 (fun (n : Nat) => intJ n) (maxNatE (setOfList xs)))])
+  -- --- end T7
   | _ => throw s!"unknown prelude op {op}"
 
 end OQ.PY.Driver
